@@ -77,7 +77,7 @@ func pretouchTypeX86(_vt reflect.Type, opts option.CompileOptions, v uint8) (map
 
 	/* find or compile */
 	vt := rt.UnpackType(_vt)
-	if val := vars.GetProgram(vt); val != nil {
+	if val := vars.GetProgram(vt, v == 1); val != nil {
 		return nil, nil
 	} else if _, err := vars.ComputeProgram(vt, encoder, v == 1); err == nil {
 		return compiler.rec, nil
@@ -93,16 +93,20 @@ type x86PretouchProgram struct {
 }
 
 func pretouchRecX86(vtm map[reflect.Type]uint8, opts option.CompileOptions) error {
-	pendings := make(map[*rt.GoType]x86PretouchProgram)
+	type pendingKey struct {
+		vt *rt.GoType
+		pv bool
+	}
+	pendings := make(map[pendingKey]x86PretouchProgram)
 
 	for opts.RecursiveDepth >= 0 && len(vtm) > 0 {
 		next := make(map[reflect.Type]uint8)
 		for vt, v := range vtm {
 			gvt := rt.UnpackType(vt)
-			if vars.GetProgram(gvt) != nil {
+			if vars.GetProgram(gvt, v == 1) != nil {
 				continue
 			}
-			if _, ok := pendings[gvt]; ok {
+			if _, ok := pendings[pendingKey{gvt, v == 1}]; ok {
 				continue
 			}
 
@@ -116,7 +120,7 @@ func pretouchRecX86(vtm map[reflect.Type]uint8, opts option.CompileOptions) erro
 			as.Name = vt.String()
 			text, pcdata := as.Export()
 
-			pendings[gvt] = x86PretouchProgram{
+			pendings[pendingKey{gvt, v == 1}] = x86PretouchProgram{
 				vt: gvt,
 				pv: v == 1,
 				item: loader.LoadOneItem{
